@@ -8,7 +8,7 @@
     regular-expression oracle (whole-string match of an XSD pattern), universally quantified.
     All statements range over every restriction text, every chain length, every value. *)
 From Coq Require Import ZArith List Bool Lia Strings.Byte.
-From YV Require Import Base.Verdict Restrict.RangeParse Restrict.Model Restrict.Spec Restrict.Proofs Restrict.Print Restrict.PrintProofs Check.C05Check.
+From YV Require Import Base.Verdict Restrict.RangeParse Restrict.Model Restrict.Spec Restrict.Proofs Restrict.Print Restrict.PrintProofs Restrict.Member Restrict.MemberProofs Check.C05Check.
 Import ListNotations.
 Open Scope Z_scope.
 
@@ -221,3 +221,133 @@ Example C05_hyps_met :
        mkT (Some [x2d;x35;x2e;x2e;x31;x38;x34;x34;x36;x37;x34;x34;x30;x37;x33;x37;x30;x39;x35;x35;x31;x36;x31;x35]) None []]
       (VOne (SNum 20)) = Accepted.
 Proof. exact hyps_met_witness. Qed.
+
+(** ** Membership types on every write path (model Restrict/Member.v: toEnum / toEnumList, toBits /
+    toBitsList, toIdentRef / toIdentRefList over meta.FindIdentity, the enums / bits a restricting
+    typedef level keeps; code after the two "fix:" commits of this round).  All statements range
+    over every enumeration / bits declaration, any number of restricting levels, every set of
+    identity declarations, every value and every leaf-list of values. *)
+
+(** Soundness on the converting paths, no hypothesis: an accepted write wrote a declared enum name
+    or value kept by every restricting level, declared and kept bit names, an identity derived from
+    a declared base (transitively, not the base itself); every leaf-list entry on its own. *)
+Theorem C05_member_accept_sound : forall t il v, accept_m t il v = Accepted -> in_member t il v.
+Proof. exact accept_m_sound. Qed.
+Print Assumptions C05_member_accept_sound.
+
+(** On well-formed types (restricting levels list names of the level below, enum names distinct,
+    identities declared after their bases) the decision IS membership. *)
+Theorem C05_member_accept_iff : forall t il v,
+  wf_mtype t -> (accept_m t il v = Accepted <-> in_member t il v).
+Proof. exact accept_m_iff. Qed.
+Print Assumptions C05_member_accept_iff.
+
+(** identityref alone, on the code's own search: FindIdentity from the identities derived from the
+    base finds exactly the identities derived from a declared base, within the model's fuel. *)
+Theorem C05_identityref_is_derivation : forall ids bases x,
+  ordered_ids [] ids ->
+  (ident_lookup (ident_fuel ids) ids bases x = Found <-> exists b, In b bases /\ derived ids x b).
+Proof. exact ident_lookup_iff. Qed.
+Print Assumptions C05_identityref_is_derivation.
+
+Theorem C05_identityref_sound : forall fuel ids bases x,
+  ident_lookup fuel ids bases x = Found -> exists b, In b bases /\ derived ids x b.
+Proof. exact ident_lookup_sound. Qed.
+
+Theorem C05_identity_not_derived_from_itself : forall ids x, ordered_ids [] ids -> ~ derived ids x x.
+Proof. exact derived_irrefl. Qed.
+Print Assumptions C05_identity_not_derived_from_itself.
+
+Theorem C05_member_terminates : forall t il v, ordered_mtype t -> accept_m t il v <> Panicked.
+Proof. exact accept_m_terminates. Qed.
+
+(** SetValue handed a value that already is a val.Value of the leaf's format: NewValue converts it
+    again, so the write accepts nothing the converting paths reject - for the membership types and
+    for the numeric / decimal / string / enumeration / bits types of Restrict/Model.v - hence every
+    soundness statement above holds on that path too.  (It rejects members where NewValue has no
+    case for the library's own value type: val.Bits, val.Decimal64, typed lists; "accepted only
+    if".) *)
+Theorem C05_setvalue_typed_member_le : forall t il v,
+  accept_m_sv_typed t il v = Accepted -> accept_m t il v = Accepted.
+Proof. exact sv_typed_m_le. Qed.
+Theorem C05_single_value_onto_leaf_list_le : forall t il v,
+  accept_m_single t il v = Accepted -> accept_m t il v = Accepted.
+Proof. exact single_m_le. Qed.
+Theorem C05_setvalue_typed_member_sound : forall t il v,
+  accept_m_sv_typed t il v = Accepted -> in_member t il v.
+Proof. exact sv_typed_m_sound. Qed.
+Print Assumptions C05_setvalue_typed_member_sound.
+
+Theorem C05_setvalue_typed_le : forall rx b il chain v,
+  accept_sv_typed rx b il chain v = Accepted -> accept rx b il chain v = Accepted.
+Proof. exact sv_typed_le. Qed.
+Theorem C05_setvalue_typed_sound : forall rx b il chain pc v,
+  parse_chain chain = Some pc -> integral_chain b pc = true -> pats_simple pc -> wf_value v ->
+  accept_sv_typed rx b il chain v = Accepted ->
+  in_effective_type rx b il (map den_level pc) v.
+Proof. exact sv_typed_sound. Qed.
+Print Assumptions C05_setvalue_typed_sound.
+Theorem C05_setvalue_typed_no_panic : forall rx b il chain v, accept_sv_typed rx b il chain v <> Panicked.
+Proof. exact sv_typed_no_panic. Qed.
+Theorem C05_setvalue_typed_frame : forall rx b il chain st v,
+  fst (set_sv_typed_model rx b il chain st v) <> Accepted -> snd (set_sv_typed_model rx b il chain st v) = st.
+Proof. exact sv_typed_frame. Qed.
+
+(** the store of a membership leaf: untouched unless accepted, then it holds the written value - on
+    every path ([acc] is the path's decision function) *)
+Theorem C05_member_frame : forall acc t il st v,
+  fst (set_m acc t il st v) <> Accepted -> snd (set_m acc t il st v) = st.
+Proof. exact set_m_frame. Qed.
+Theorem C05_member_stores : forall acc t il st v,
+  fst (set_m acc t il st v) = Accepted -> snd (set_m acc t il st v) = Some v.
+Proof. exact set_m_stores. Qed.
+
+(** the executable oracle of the correspondence check decides the spec *)
+Theorem C05_member_spec_oracle : forall t il v,
+  (match t with MIdent ids _ => ordered_ids [] ids | _ => True end) ->
+  (in_memberb t il v = true <-> in_member t il v).
+Proof. exact in_memberb_iff. Qed.
+Print Assumptions C05_member_spec_oracle.
+Theorem C05_member_cases_in_domain : forall t, wf_mtypeb t = true -> wf_mtype t.
+Proof. exact wf_mtypeb_ok. Qed.
+
+(** What the repaired order of calls rules out, and the code before this round's repairs:
+    - handing the typed value straight to Set ("already converted") stores an undeclared enum;
+    - Set with a typed identity of another base stores it (finding 6);
+    - the identityref's base itself was accepted;
+    - a single undeclared value written to an enumeration leaf-list was stored as the empty enum. *)
+Theorem C05_setvalue_shortcut_refuted :
+  accept_sv_shortcut (fun _ _ => false) (BEnum [([x61], 0)]) false [mkT None None []] (VOne (SEnumName [x7a; x7a])) = Accepted /\
+  accept_sv_typed (fun _ _ => false) (BEnum [([x61], 0)]) false [mkT None None []] (VOne (SEnumName [x7a; x7a])) = Rejected.
+Proof. exact shortcut_refuted. Qed.
+Theorem C05_kf6_identityref_refuted :
+  accept_m_set (MIdent ids_ab [[x61]]) false (MOne (MName [x7a])) = Accepted /\
+  accept_m (MIdent ids_ab [[x61]]) false (MOne (MName [x7a])) = Rejected /\
+  ~ in_member (MIdent ids_ab [[x61]]) false (MOne (MName [x7a])).
+Proof. exact set_typed_ident_refuted. Qed.
+Theorem C05_pinned_base_itself :
+  ident_lookup_old (ident_fuel ids_ab) ids_ab [[x61]] [x61] = Found /\
+  ident_lookup (ident_fuel ids_ab) ids_ab [[x61]] [x61] = NotFound /\
+  ident_lookup (ident_fuel ids_ab) ids_ab [[x61]] [x62] = Found /\
+  ~ derived ids_ab [x61] [x61].
+Proof. exact base_itself_old_accepted. Qed.
+Theorem C05_pinned_enum_list_single :
+  enum_list_single_old [([x61], 0)] (MName [x7a]) = MPass /\
+  enum_list_single [([x61], 0)] (MName [x7a]) = MFail /\
+  enum_list_single_old [([x61], 0)] (MName [x61]) = MFail /\
+  enum_list_single [([x61], 0)] (MName [x61]) = MPass.
+Proof. exact enum_list_single_old_refuted. Qed.
+Print Assumptions C05_pinned_base_itself.
+
+(** non-vacuity: identities a <- b <- c (c also from a) are declared base first and c is accepted
+    for base a; enumeration {a=0,b=5,c=6} restricted to {b,c} then {b}: the leaf-list [b, 5] is
+    accepted, [b, 6] is not; SetValue accepts the typed list of one [b] *)
+Example C05_member_hyps_met :
+  ordered_ids [] ids_abc /\
+  accept_m (MIdent ids_abc [[x61]]) false (MOne (MName [x63])) = Accepted /\
+  accept_m (MEnum [([x61], 0); ([x62], 5); ([x63], 6)] [[[x62]]; [[x62]; [x63]]]) true
+           (MMany [MName [x62]; MNum 5]) = Accepted /\
+  accept_m (MEnum [([x61], 0); ([x62], 5); ([x63], 6)] [[[x62]]; [[x62]; [x63]]]) true
+           (MMany [MName [x62]; MNum 6]) = Rejected /\
+  accept_m_sv_typed (MEnum [([x61], 0); ([x62], 5)] []) true (MMany [MName [x62]]) = Accepted.
+Proof. exact member_hyps_met. Qed.
